@@ -19,8 +19,8 @@ From RU Require Import Base.Prelude Base.Utf8 Base.U32_c13 Gen.Tables Model.Puny
 From RU Require Import Model.HostT Model.Host Model.UrlRecord Model.Parser Proofs.C09_Host Proofs.C09_InstIdna
   Proofs.C09_Long Proofs.C09_LongRun Proofs.C02_Reach Proofs.C02_AuthMain.
 
-Notation HOk := HostT.Ok.
-Notation HErr := HostT.Err.
+Local Notation HOk := HostT.Ok.
+Local Notation HErr := HostT.Err.
 
 (* ---------------------------------------------------------------- 1. URL level, stand-in oracle *)
 Notation lparse idna s := (parse_url true (host_parse idna) host_parse_opaque host_display None None s) (only parsing).
